@@ -77,9 +77,21 @@ def nontrivial(trace):
     return any(e["ev"] == "ECall" and e.get("res") == 1 and not e.get("noop") for e in trace)
 
 
+CHUNK = 12000
+
+
 def run_family(ctx, cases, what, clauses, extra_sig=None, accept=None):
-    traces = sysfam.run_cases(ctx, cases)
-    viols, bad = sysfam.judge(ctx, cases, traces, what, clauses=clauses, extra_sig=extra_sig, accept=accept)
+    """Execute + judge a family in chunks (a recorded trace with its tree observations is a few KB of Python objects: a
+    200k-case family held at once was tens of GB).  Returns LIGHT traces (tree / table observations dropped)."""
+    traces, viols, bad = [], [], set()
+    for k in range(0, len(cases), CHUNK):
+        sub = cases[k:k + CHUNK]
+        tr = sysfam.run_cases(ctx, sub)
+        v, b = sysfam.judge(ctx, sub, tr, what, clauses=clauses, extra_sig=extra_sig, accept=accept)
+        viols += [(x[0] + k,) + tuple(x[1:]) for x in v]
+        bad |= {i + k for i in b}
+        traces += [[{kk: vv for kk, vv in e.items() if kk not in ("post", "st")} for e in t] for t in tr]
+        del tr
     distinct = {json.dumps([c["flavor"], c["tokens"]]) for c, t in zip(cases, traces) if nontrivial(t)}
     ctx.count(evaluations=len(cases), nontrivial=len(distinct))
     if cases:
